@@ -142,6 +142,10 @@ func (m *Machine) bitop(op token.Token, x, y *Term, w int, signed bool) *Term {
 			if c.Sign() == 0 {
 				return mkI(0, w)
 			}
+			// no bit of the constant can be set in x (x is small and non-negative)
+			if x.Lo != nil && x.Lo.Sign() >= 0 && x.Hi != nil && c.TrailingZeroBits() >= uint(x.Hi.BitLen()) {
+				return mkI(0, w)
+			}
 			if k, ok := isPow2Minus1(c); ok {
 				if k >= w {
 					return x
@@ -226,6 +230,13 @@ func (m *Machine) bitop(op token.Token, x, y *Term, w int, signed bool) *Term {
 			return m.wrap(acc, w, signed)
 		}
 		return m.nameTerm(acc)
+	}
+	if op == token.AND && nonNeg(x) && nonNeg(y) && x.Hi != nil && y.Hi != nil {
+		// sound over-approximation: 0 <= x&y <= min(x,y) (a fresh value constrained that way)
+		r := m.declareInt("and", w, signed, big0, minB(x.Hi, y.Hi))
+		m.sol.Send("(assert (and (<= " + r.S + " " + x.S + ") (<= " + r.S + " " + y.S + ")))")
+		m.nondets = m.nondets[:len(m.nondets)-1] // internal: not a harness input
+		return r
 	}
 	unsupported("int mode: bit operation %s on two symbolic %d-bit values (use bv mode) @ %s", op, w, m.where())
 	return nil
